@@ -612,6 +612,134 @@ pub fn one_child(api: &dyn GlobalApi, args: &[String]) -> i32 {
     }
 }
 
+/// Total decoder for the libFuzzer target: EVERY byte string denotes a sequence (a failed
+/// decode would waste the execution), with sizes bounded by construction.
+pub fn decode_lenient(data: &[u8]) -> Sequence {
+    struct Cur<'a> {
+        d: &'a [u8],
+        p: usize,
+    }
+    impl<'a> Cur<'a> {
+        fn u8(&mut self) -> u8 {
+            let b = self.d.get(self.p).copied().unwrap_or(0);
+            self.p += 1;
+            b
+        }
+        fn u16(&mut self) -> u16 {
+            u16::from_le_bytes([self.u8(), self.u8()])
+        }
+        fn u32(&mut self) -> u32 {
+            u32::from_le_bytes([self.u8(), self.u8(), self.u8(), self.u8()])
+        }
+        fn u64(&mut self) -> u64 {
+            (self.u32() as u64) << 32 | self.u32() as u64
+        }
+        fn bytes(&mut self, max: usize) -> Vec<u8> {
+            let n = (self.u8() as usize * (max + 1)) >> 8;
+            (0..n).map(|_| self.u8()).collect()
+        }
+        fn done(&self) -> bool {
+            self.p >= self.d.len()
+        }
+    }
+    fn dataspec(c: &mut Cur) -> DataSpec {
+        match c.u8() % 40 {
+            0..=19 => DataSpec::explicit(c.bytes(200)),
+            20..=34 => {
+                let kind = match c.u8() % 6 {
+                    0 => gens::Kind::Uniform,
+                    1 => gens::Kind::Alphabet(1 + c.u8() % 8),
+                    2 => gens::Kind::Periodic(1 + c.u8() % 64, c.u8() % 40),
+                    3 => gens::Kind::Text,
+                    4 => gens::Kind::Runs,
+                    _ => gens::Kind::Mixed,
+                };
+                DataSpec { kind, len: c.u16() as usize % 6000, seed: c.u64(), explicit: None }
+            }
+            // rare: a stream just around the helpers' 1 MiB buffer (expensive under ASan)
+            35 => DataSpec { kind: gens::Kind::Periodic(1 + c.u8() % 32, 2), len: (1 << 20) - 8 + (c.u8() as usize % 32), seed: c.u64(), explicit: None },
+            _ => DataSpec { kind: gens::Kind::Mixed, len: c.u16() as usize * 2, seed: c.u64(), explicit: None },
+        }
+    }
+    fn string(c: &mut Cur) -> String {
+        String::from_utf8_lossy(&c.bytes(150)).into_owned()
+    }
+    let mut c = Cur { d: data, p: 0 };
+    let variant = c.u8() % 5;
+    let mut ops = Vec::new();
+    while !c.done() && ops.len() < 30 {
+        let op = match c.u8() % 28 {
+            0 => Op::GenNew,
+            1 => Op::GenInject(c.u8(), c.u16() % 600),
+            2 | 3 => Op::GenUpdate(dataspec(&mut c)),
+            4 => Op::GenFinalize(c.u8()),
+            5 => Op::GenFinalizeDefault,
+            6 => Op::GenProcessedLen,
+            7 => Op::GenClone,
+            8 | 9 => {
+                let raw = c.u8() % 3 == 0;
+                let t = if raw {
+                    TextSpec { base: vec![], with_prefix: false, muts: vec![], raw: Some(c.bytes(160)) }
+                } else {
+                    let base = c.bytes(69);
+                    let with_prefix = c.u8() & 1 == 1;
+                    let n = c.u8() % 4;
+                    let muts = (0..n)
+                        .map(|_| match c.u8() % 6 {
+                            0 => gens::Mut::FlipCase(c.u16()),
+                            1 => gens::Mut::LowerAll,
+                            2 => gens::Mut::Replace(c.u16(), c.u8(), c.u8()),
+                            3 => gens::Mut::PrefixVariant(c.u8()),
+                            4 => gens::Mut::Truncate(c.u16()),
+                            _ => gens::Mut::InsertAt(c.u16(), c.u8()),
+                        })
+                        .collect();
+                    TextSpec { base, with_prefix, muts, raw: None }
+                };
+                Op::ParseText(t, c.u8())
+            }
+            10 => Op::ParseSlice(c.bytes(140)),
+            11 => Op::ParseArray(c.bytes(69)),
+            12 => Op::StoreBytes(c.u16()),
+            13 => Op::StoreStr(c.u8() & 1 == 1, c.u16()),
+            14 => Op::Display,
+            15 => Op::Compare(c.u8() & 1 == 1),
+            16 => Op::CompareParts,
+            17 => Op::ClearChecksum,
+            18 => Op::Accessors,
+            19 => Op::Quartile(match c.u8() % 6 {
+                0 | 1 => QIdx::In(c.u16()),
+                2 => QIdx::N,
+                3 => QIdx::NPlus1,
+                4 => QIdx::Times4,
+                _ => QIdx::Max,
+            }),
+            20 => Op::LenNew(c.u32()),
+            21 => Op::LenTryFrom(c.u32()),
+            22 => Op::LenRange(c.u8()),
+            23 => Op::LenCompare(c.u8(), c.u8()),
+            24 => Op::Validity(c.u32()),
+            25 => Op::CompareWith(string(&mut c), string(&mut c)),
+            26 => Op::HashBuf(dataspec(&mut c)),
+            _ => {
+                let kind = match c.u8() % 6 {
+                    0 => ReaderKind::Honest(1 + c.u16() as u32),
+                    1 => ReaderKind::LiePlus { after: c.u8() % 3, extra: 1 + c.u16() as u32 },
+                    2 => ReaderKind::LieMax { after: c.u8() % 3 },
+                    3 => ReaderKind::ReportMoreThanWritten(c.u32()),
+                    4 => ReaderKind::NoWrite(c.u32()),
+                    _ => ReaderKind::AlternateErrors,
+                };
+                Op::HashStream(kind, dataspec(&mut c))
+            }
+        };
+        ops.push(op);
+    }
+    let mut s = Sequence { variant, ops };
+    sanitize(&mut s);
+    s
+}
+
 /// `probe c17-corpus <dir> <n>`: seed corpus for the libFuzzer target (postcard-encoded sequences).
 pub fn write_corpus(api: &dyn GlobalApi, dir: &str, n: usize) -> i32 {
     let ctx = Ctx::new(api, "C17", Tier::Quick, 0, vec![]);
